@@ -164,7 +164,20 @@ def step (page : Nat) (ws : List String) : Nat × String :=
     | some (sm, lm) => (page, s!"ft={fileType sm} lt={fileType lm} | stat={fmtStat sm} lstat={fmtStat lm} fds=1")
     | none => (page, "bad-op")
   | ["fsize", n] => (page, s!"size={if n == "missing" then "-1" else n} fds=1")
-  | "canon" :: _ => (page, "canon=ok fds=1")
+  | "canon" :: rest =>
+    -- zix_canonical_path = realpath: the physical path per the tree-with-links model (validates its path resolution)
+    let setupToks := rest.takeWhile (· ≠ "|")
+    match (rest.dropWhile (· ≠ "|")).drop 1 with
+    | [h] =>
+      match expandPath h with
+      | some p =>
+        let t := setupToks.foldl addSetupL baseTreeL
+        let r := match Zix.FsLink.canonical t p with
+          | some cs => "/" ++ "/".intercalate (cs.map strOfBytes)
+          | none => "NULL"
+        (page, s!"canon=ok path={r} fds=1")
+      | none => (page, "bad-op")
+    | _ => (page, "bad-op")
   | "foreach" :: names =>
     let ns := names.map (fun s => (s.drop 2).toString)
     (page, s!"names=[{" ".intercalate (ns.mergeSort (fun a b => decide (a ≤ b)))}] fds=1")
